@@ -10,6 +10,8 @@ def INCLUDE(name):
 
 def replay(ob):
     n = ob["name"]
+    if "RemoveOptionalBias" in n and "overridable" in n:
+        return HEAD + "main(['ovr_bias'])\n"
     if "ExpandIdentity.does_not_fire" in n:
         return HEAD + "main(['ovr_expand'])\n"
     if "pattern_constant.not_matched" in n:
